@@ -57,13 +57,16 @@ Prog == 1..P
 EvLoc == <<"events", 0>>
 PubLoc(k) == <<"pub", k>>
 ValLoc(k) == <<"val", k>>
+\* the popper's private state (pop index: plain load / store in try_pop_n<false, ..>): whoever polls must
+\* have seen the previous poll -- the consumer role is handed over through the release / acquire on _events
+PopIdxLoc == <<"popidx", 0>>
 
 NoEv == [t |-> 0, k |-> "", site |-> "", mo |-> "", loc |-> "", i |-> 0, v |-> 0, a |-> 0, b |-> 0,
          ok |-> TRUE, op |-> "", item |-> 0, res |-> 0, vals |-> <<>>]
 
 L0 == [opi |-> 1, nexe |-> 0, op |-> "", item |-> 0, res |-> 0, failed |-> FALSE, stage |-> "wait",
        tkt |-> 0, seen |-> 0, cret |-> "", base |-> 0, n |-> 0, lim |-> 0, second |-> FALSE,
-       jset |-> {}, jown |-> {}, jfly |-> {}, jmiss |-> FALSE, jmissown |-> FALSE, jflym |-> FALSE]
+       jset |-> {}, jown |-> {}, jfly |-> {}, jmiss |-> FALSE, jhard |-> FALSE, jhardown |-> FALSE]
 
 H0 == [called |-> {}, returned |-> {}, sig |-> {}, cons |-> {}, consEnd |-> {}, inCons |-> {},
        unrec |-> FALSE, refusedEver |-> FALSE, natt |-> 0, nspawn |-> 0, bad |-> ""]
@@ -71,7 +74,7 @@ H0 == [called |-> {}, returned |-> {}, sig |-> {}, cons |-> {}, consEnd |-> {}, 
 Q0 == [tk |-> <<>>, head |-> 0, freed |-> 0]
 
 MS0(c) == WMInit(ThrOf(c),
-                 [x \in {EvLoc} \cup {PubLoc(k) : k \in 0..NItems(c) - 1} \cup {ValLoc(k) : k \in 0..NItems(c) - 1} |-> 0])
+                 [x \in {EvLoc, PopIdxLoc} \cup {PubLoc(k) : k \in 0..NItems(c) - 1} \cup {ValLoc(k) : k \in 0..NItems(c) - 1} |-> 0])
 PC0(c) == [t \in ThrOf(c) |-> IF t = 0 THEN "m_wait" ELSE "idle"]
 LL0(c) == [t \in ThrOf(c) |-> L0]
 
@@ -142,7 +145,7 @@ Call(t) ==
                                 !.jset = IF op = "j" THEN before ELSE {},
                                 !.jown = IF op = "j" THEN {x \in before : t = 0 \/ Owner(x) = t} ELSE {},
                                 !.jfly = IF op = "j" THEN H.called \ H.returned ELSE {},
-                                !.jmiss = FALSE, !.jmissown = FALSE, !.jflym = FALSE])
+                                !.jmiss = FALSE, !.jhard = FALSE, !.jhardown = FALSE])
         /\ H' = [H EXCEPT !.called = IF op = "e" THEN @ \cup {item} ELSE @]
         /\ ev' = [NoEv EXCEPT !.t = t, !.k = "call", !.op = op, !.item = item]
   /\ UNCHANGED <<cfg, ms, Q>>
@@ -282,8 +285,9 @@ CPoll(t) ==
      IN \E n \in 0..lim :
           /\ PopOk(t, n, lim)
           /\ IF n = 0
-             THEN /\ Goto(t, "c_cas") /\ UNCHANGED <<ms, Q, L>>
-             ELSE /\ ms' = PopView(t, n)
+             THEN /\ ms' = NaEff(ms, t, PopIdxLoc, Q.head, FALSE)
+                  /\ Goto(t, "c_cas") /\ UNCHANGED <<Q, L>>
+             ELSE /\ ms' = NaEff(PopView(t, n), t, PopIdxLoc, Q.head + n, FALSE)
                   /\ Q' = [Q EXCEPT !.head = @ + n]
                   /\ SetL(t, [L[t] EXCEPT !.base = Q.head, !.n = n, !.lim = lim, !.second = FALSE])
                   /\ Goto(t, "c_cbb")
@@ -297,8 +301,9 @@ CPoll2(t) ==
      IN \E n \in 0..lim :
           /\ PopOk(t, n, lim)
           /\ IF n = 0
-             THEN /\ Goto(t, "c_reload") /\ UNCHANGED <<ms, Q, L>>
-             ELSE /\ ms' = PopView(t, n)
+             THEN /\ ms' = NaEff(ms, t, PopIdxLoc, Q.head, FALSE)
+                  /\ Goto(t, "c_reload") /\ UNCHANGED <<Q, L>>
+             ELSE /\ ms' = NaEff(PopView(t, n), t, PopIdxLoc, Q.head + n, FALSE)
                   /\ Q' = [Q EXCEPT !.head = @ + n]
                   /\ SetL(t, [L[t] EXCEPT !.base = Q.head, !.n = n, !.second = TRUE])
                   /\ Goto(t, "c_cbb")
@@ -357,6 +362,8 @@ CCas(t, M(_)) ==
 (***************************************************************************)
 (* join()                                                                  *)
 (***************************************************************************)
+\* item x is queued behind a ticket whose execute() has not signalled yet (still in flight)
+BehindInflight(x) == \E j \in 1..Len(Q.tk) : Q.tk[j] = x /\ \E i \in 1..j - 1 : Q.tk[i] \notin H.sig
 JLoad(t, M(_)) ==
   /\ pc[t] = "j_load"
   /\ DoLoad(t, EvLoc, "join_load", M,
@@ -364,8 +371,8 @@ JLoad(t, M(_)) ==
                    ELSE /\ Goto(t, "ret")
                         \* the verdict on this join is taken at the moment it decides to return
                         /\ SetL(t, [L[t] EXCEPT !.jmiss = ~(L[t].jset \subseteq H.consEnd),
-                                                !.jmissown = ~(L[t].jown \subseteq H.consEnd),
-                                                !.jflym = ~(L[t].jfly \subseteq H.consEnd)]))
+                                                !.jhard = \E x \in L[t].jset \ H.consEnd : ~BehindInflight(x),
+                                                !.jhardown = \E x \in L[t].jown \ H.consEnd : ~BehindInflight(x)]))
   /\ UNCHANGED <<cfg, Q, H>>
 
 JSleep(t) ==
@@ -414,13 +421,13 @@ NoStranding ==
 \* an earlier ticket of the inner queue is still in flight: the consumer's poll stops at the unpublished
 \* ticket, the counter goes back to 0 and join() returns although a submitted item is still queued.)
 JoinReturnsAfterConsumed == \A t \in 0..P : ~L[t].jmiss
-\* the same clause outside that witness class: no execute() that was in flight when join() was called
-\* is still undelivered
+\* the same clause outside that witness class: what join() did not wait for is queued behind the ticket
+\* of an execute() that has not signalled yet
 JoinReturnsAfterConsumedNoInflight ==
-  \A t \in 0..P : L[t].jmiss => L[t].jflym
+  \A t \in 0..P : ~L[t].jhard
 \* the part of it that does not rest on real-time order between threads (meaningful with Stale = TRUE)
 JoinOwnAfterConsumed ==
-  \A t \in 0..P : L[t].jmissown => L[t].jflym
+  \A t \in 0..P : ~L[t].jhardown
 \* safety form of JoinReturns / RecoveryAfterRefusal / no deadlock: when only joiners and blocked
 \* pushers are left, the counter is 0 (the joiners leave) and nobody is blocked
 Blocked(t) == pc[t] = "p_fill" /\ ~SlotFree(t)
